@@ -90,6 +90,10 @@ func (c *compiler) updateEnterBlock(enter *enterBlock) {
 	if scope.dynLookup {
 		stashSize = len(scope.bindings)
 		enter.names = scope.makeNamesMap()
+		if enter.names == nil {
+			// no bindings, but still a scope with dynamic lookups: not nil, so that it can be told apart
+			enter.names = make(map[unistring.String]uint32)
+		}
 	} else {
 		for _, b := range scope.bindings {
 			if b.inStash {
